@@ -37,6 +37,7 @@ def init_world(auto=True):
         if auto:
             T.build_auto(os.path.join(VERIF_ROOT, "auto_pool.json"))
             T.build_geometry_variants(world.CENSUS)
+            T.build_near_variants(world.CENSUS)
     discover.init()
 
 
